@@ -262,11 +262,14 @@ pub async fn run_scenario(sc: Sc) -> Run {
     if sc.pg_event {
         let a = a_ref.clone();
         let x = x_ref.clone();
+        let b = b_ref.clone();
         tasks.push(vsched::spawn("pg", async move {
             ractor::pg::monitor("g".to_string(), a.get_cell());
             let call = vsched::call_stamp();
             ractor::pg::join("g".to_string(), vec![x.get_cell()]);
             let ret = vsched::ret_stamp();
+            // a second event right behind the first: two supervision events can be pending at once
+            ractor::pg::join("g".to_string(), vec![b.get_cell()]);
             ("pg", call, ret, 0, true)
         }));
     }
@@ -384,7 +387,7 @@ pub async fn run_scenario(sc: Sc) -> Run {
     run.final_status = Some(a_ref.get_status());
     run.bystander_ok = ractor::call_t!(b_ref, |reply| PMsg::Call { tag: 77, reply, steps: vec![] }, 1000).is_ok();
     ractor::pg::demonitor("g".to_string(), a_ref.get_id());
-    ractor::pg::leave("g".to_string(), vec![x_ref.get_cell()]);
+    ractor::pg::leave("g".to_string(), vec![x_ref.get_cell(), b_ref.get_cell()]);
     for (r, h) in [(s_ref, s_h), (b_ref, b_h), (x_ref, x_h)] {
         r.stop(None);
         let _ = h.await;
